@@ -90,6 +90,16 @@ CLAIMED = {
          'proportional inputs on a common scale at a tight threshold); pooled / noise-ceiling RDMs and regression fits with NaNs are '
          'covered under C07 / C08.',
          'DESIGN.md section 7, C13'),
+ 'C17': ('Coq proofs over R: rank-based measures invariant under strictly increasing maps, cosine under positive scaling, '
+         'correlation under positive affine maps, minmax / geo-topological ranges + in-Coq correspondence of every transform',
+         'Theorems: tie-averaged ranks of (map f x) equal those of x for every strictly increasing f; hence Spearman, rho-a, tau-a, tau-b '
+         'are unchanged by strictly increasing transforms of either RDM, in particular by sqrt_transform of non-negative RDMs; cosine '
+         'is invariant under positive scaling, Pearson under positive affine maps; minmax is an increasing affine map onto [0,1]; the '
+         'geo-topological map takes values in [0,1]. Correspondence inside Coq: rank_transform (5 methods, NaN omitted), sqrt, '
+         'positive, minmax, geo-topological (np.quantile modelled), geodesic (Floyd-Warshall over optional weights).',
+         'Shortest-path optimality of the Floyd-Warshall model is not proved (model compared with networkx per case); descriptors and '
+         'measure names are checked by the Python oracle; invariance on the implementation is a supporting test.',
+         'DESIGN.md section 7, C17'),
 }
 NA_REASON = 'check not built yet in this round (work in progress; see DESIGN.md section 7)'
 
